@@ -381,6 +381,17 @@ def w_rules(ctx):
         R.floor("C17.W11", len(firsts), 1, "primary serialisation site of MethodResponse::response")
         from .common import http_status_table
         http_status_table(ctx, "C17.W11", ("from_method_response",))
+        # W12: subscription items are delivered one for one: a message the connection queue hands back to a handler is
+        # marked complete (C04.R11: a retried item is not enveloped twice), and the client's Subscription::next() is
+        # cancel safe - its only suspension point is the poll of the stream itself, nothing is awaited once an item has
+        # been taken out (a `yield` after the dequeue loses that item when next() is used in select! / timeout)
+        c04.r11_returned_messages_are_complete(ctx)
+        nb = F.one(r"^jsonrpsee_core::client::Subscription::<Notif>::next::\{closure#0\}$")
+        R.fn(nb)
+        aw = [c for c in nb.calls_to(r"IntoFuture>?::into_future$") if str(c.exp or "").startswith("d:Await")]
+        trn = ctx.tracer(follow_callers=False, follow_fields=False, inline_calls=False)
+        kinds = sorted({(l.detail.get("callee") or "?") if l.kind == "call" else flow.leaf_str(l)[:40] for c in aw for l in trn.origins(nb, c.args[0])})
+        R.check(len(aw) == 1 and all(re.search(r"StreamExt::next$", k) for k in kinds), "C17.W12", "Subscription::next:single-await", "Subscription::next awaits the stream and nothing else", "Subscription::next has %d suspension points (%s): an await after an item was dequeued makes next() lose that item whenever its future is dropped there (select!, timeout)" % (len(aw), [short(k) for k in kinds]), "%s:%d" % (nb.file, nb.lo))
         return w6_runtime_key_encoding(ctx)
     tr = ctx.tracer(follow_callers=False, follow_fields=False)
     traits = collect(F, tr)
